@@ -1,31 +1,72 @@
 #!/usr/bin/env python3
-"""Re-run every quick check against every stored seeded change (applied to /repo, then undone) and
-refresh `reported_by_checks` / `reported_rules` in seeded/*/meta.json.  Prints one line per seed and
-fails if a seed is reported by no check, or not by the check of the property it breaks."""
+"""Re-run every quick check against every stored seeded change and refresh `reported_by_checks` /
+`reported_rules` in seeded/*/meta.json.  Each change is applied to a scratch copy of /repo/billiard under a
+temporary directory outside /repo and /verif (removed afterwards); the checks read that copy (`--repo`), so /repo is
+never touched and the seeds are evaluated in parallel.  Prints one line per seed and fails if a seed is not reported
+by the check of the property it breaks, or does not apply."""
 import glob
 import json
+import multiprocessing as mp
 import os
 import re
+import shutil
 import subprocess
 import sys
+import tempfile
 
-bad = 0
-for d in sorted(glob.glob('/verif/seeded/*/')):
+PROPS = ['C%02d' % i for i in range(1, 21)]
+
+
+def one(d):
     meta_p = os.path.join(d, 'meta.json')
     meta = json.load(open(meta_p))
-    out = subprocess.run(['/verif/tools/seedcheck.sh', os.path.join(d, 'patch.diff')],
-                         capture_output=True, text=True).stdout
-    by_prop = sorted(set(re.findall(r'^(C\d\d) rc=1', out, re.M)))
-    errs = sorted(set(re.findall(r'^(C\d\d) rc=2', out, re.M)))
-    rules = sorted(set(re.findall(r'VIOLATED (R[0-9.]+ [^\n]*?) at billiard', out)))
-    meta['reported_by_checks'] = by_prop
-    meta['reported_rules'] = rules[:12]
-    if errs:
-        meta['analysis_errors'] = errs
-    json.dump(meta, open(meta_p, 'w'), indent=1)
-    own = meta['breaks_property'] in by_prop
-    print('%-7s own-check:%-3s reported by %s %s' % (meta['seed'], 'yes' if own else 'NO', by_prop,
-                                                    ('ANALYSIS-ERROR in %s' % errs) if errs else ''))
-    if not by_prop or 'PATCH DOES NOT APPLY' in out:
-        bad += 1
-sys.exit(1 if bad else 0)
+    tmp = tempfile.mkdtemp(prefix='seedrun_')
+    try:
+        shutil.copytree('/repo/billiard', os.path.join(tmp, 'billiard'),
+                        ignore=shutil.ignore_patterns('__pycache__', '*.pyc', '*.so'))
+        r = subprocess.run(['git', 'apply', '--unsafe-paths', os.path.join(d, 'patch.diff')], cwd=tmp,
+                           capture_output=True, text=True)
+        if r.returncode != 0:
+            return meta['seed'], meta['breaks_property'], None, [], [], 'PATCH DOES NOT APPLY: ' + r.stderr.strip()[-100:]
+        by_prop, errs, rules = [], [], set()
+        for p in PROPS:
+            c = subprocess.run(['/venv/bin/python', '/verif/check.py', p, '--tier', 'quick', '--repo', tmp,
+                                '--evidence-dir', tmp], capture_output=True, text=True)
+            if c.returncode == 1:
+                by_prop.append(p)
+                rules |= set(re.findall(r'VIOLATED (R[0-9.]+ [^\n]*?) at billiard', c.stdout))
+            elif c.returncode != 0:
+                errs.append(p)
+        meta['reported_by_checks'] = by_prop
+        meta['reported_rules'] = sorted(rules)[:12]
+        if errs:
+            meta['analysis_errors'] = errs
+        else:
+            meta.pop('analysis_errors', None)
+        json.dump(meta, open(meta_p, 'w'), indent=1)
+        return meta['seed'], meta['breaks_property'], by_prop, errs, sorted(rules), ''
+    finally:
+        shutil.rmtree(tmp, ignore_errors=True)
+
+
+def main():
+    dirs = sorted(glob.glob('/verif/seeded/*/'))
+    if len(sys.argv) > 1:
+        dirs = [d for d in dirs if any(a in d for a in sys.argv[1:])]
+    bad = 0
+    with mp.Pool(min(14, os.cpu_count() or 1)) as pool:
+        for seed, prop, by_prop, errs, rules, err in pool.imap(one, dirs):
+            if by_prop is None:
+                print('%-9s %s' % (seed, err))
+                bad += 1
+                continue
+            own = prop in by_prop
+            print('%-9s own-check:%-3s reported by %s %s' % (seed, 'yes' if own else 'NO', by_prop,
+                                                            ('ANALYSIS-ERROR in %s' % errs) if errs else ''))
+            if not own:
+                bad += 1
+    sys.exit(1 if bad else 0)
+
+
+if __name__ == '__main__':
+    main()
